@@ -15,9 +15,21 @@ type ValueObject struct {
 
 func (_ ValueObject) Kind() ValueKind { return ObjectValueKind }
 
+// Returns the field names in sorted order (the order `keys` and `to_json` use)
+// so that nothing which is shown or reported depends on the iteration order of the map.
+func sortedFieldNames(fields map[string]*Value) []string {
+	names := make([]string, 0, len(fields))
+	for name := range fields {
+		names = append(names, name)
+	}
+	sort.Strings(names)
+	return names
+}
+
 func (self ValueObject) Display() (string, *VmInterrupt) {
 	fields := make([]string, 0)
-	for key, field := range self.FieldsInternal {
+	for _, key := range sortedFieldNames(self.FieldsInternal) {
+		field := self.FieldsInternal[key]
 		disp, err := (*field).Display()
 		if err != nil {
 			return "", err
@@ -31,7 +43,8 @@ func (self ValueObject) Display() (string, *VmInterrupt) {
 
 func (self ValueObject) DisplayFlat() (string, *VmInterrupt) {
 	fields := make([]string, 0)
-	for key, field := range self.FieldsInternal {
+	for _, key := range sortedFieldNames(self.FieldsInternal) {
+		field := self.FieldsInternal[key]
 		disp, err := (*field).Display()
 		if err != nil {
 			return "", err
